@@ -613,7 +613,7 @@ Proof.
     + apply keeps_bind; [apply keeps_attempt_rejoin|]. intros b. apply keeps_when. apply keeps_become_undead.
     + apply keeps_bind.
       { apply keeps_when. apply keeps_modify. intros f W A. split; auto. apply WF_set_incarnation; auto. }
-      intros _. apply keeps_gossip.
+      intros _. apply keeps_get_ri. intros f1 _ _. apply keeps_when. apply keeps_gossip.
   - apply keeps_bind; [apply keeps_attempt_rejoin|]. intros b. apply keeps_when. apply keeps_become_undead.
 Qed.
 
@@ -1086,6 +1086,7 @@ Proof.
   intros active s2 _ H2.
   destruct (negb active).
   - apply okres_keeps; [|exact H2].
+    apply keeps_get_ri. intros f00 _ _.
     apply keeps_bind; [apply keeps_when; apply keeps_handle_self_update|]. intros _.
     apply keeps_get_ri. intros f0 _ _. apply keeps_when. apply keeps_send_message. left. exact Hsrc.
   - apply okres_keeps; [|exact H2].
